@@ -762,7 +762,7 @@ class SetDom:
             return None if cl is None else frozenset(('coll', root, c) for c in cl)
         return None
 
-    def of(self, e):
+    def of(self, e, at=None):
         if isinstance(e, ast.Name):
             if e.id in self._busy:
                 return frozenset()
@@ -782,13 +782,14 @@ class SetDom:
                 return None if a is None or b is None else a | b
             return self.collect_call(e, None)
         da = _dsl_attr(e)
-        if da:
-            # x._dsl.F with x a loop variable over a known set
-            for k, st, it, _ in _bindings(self.fn, da[0]):
-                if k == 'for':
-                    base = self.of(it)
+        if da and at is not None:
+            # x._dsl.F with x the variable of an enclosing loop over a known set
+            for a in _ancestors(at, self.fn):
+                if isinstance(a, ast.For) and any(isinstance(n, ast.Name) and n.id == da[0] for n in ast.walk(a.target)):
+                    base = self.of(a.iter) if isinstance(a.target, ast.Name) else None
                     if base is not None:
                         return frozenset([('fieldof', da[1], base)])
+                    return None
         return None
 
     def _of_name(self, name):
@@ -802,7 +803,7 @@ class SetDom:
             elif k == 'unpack':
                 v = self.collect_call(val, extra)
             elif k == 'aug' and isinstance(extra, ast.BitOr):
-                v = self.of(val)
+                v = self.of(val, st)
             else:
                 v = None
             if v is None:
@@ -1015,10 +1016,11 @@ def rule_sites(repo):
             if not (recv == _params(fn)[0] or (tops and all(t.endswith('._dsl.elaborate_top') for t in tops))):
                 r.bad(m, qual, cons, f"receiver `{recv}` is not the elaborated top", call.lineno)
                 continue
-            gs = [g for g in _all_guards(call, fn) if g.kind in ('if', 'exit', 'assert')]
+            gs = [g for g in _all_guards(call, fn) if g.kind in ('if', 'exit')]
             if gs:
-                r.bad(m, qual, f"{norm(call)} guarded by {'; '.join(repr(g) for g in gs)}",
-                      f"the call is conditional ({'; '.join(repr(g) for g in gs)}) while the opposite half runs for "
+                gt = ' and '.join(f"{'' if g.polarity else 'not '}{norm(g.test)}" for g in gs)
+                r.bad(m, qual, f"{norm(call)} guarded by {gt}",
+                      f"the call is conditional ({gt}) while the opposite half runs for "
                       f"every component: in the excluded situation the components below `{root}` keep their update "
                       f"blocks / metadata in the top-level aggregates (stale writers -> later net resolution touches "
                       f"deleted signals)", call.lineno)
@@ -1191,3 +1193,797 @@ def rule_keys(repo):
                           f"fresh build does not have; prune it (`if not {e.agg}[k]: del ...`)", e.node.lineno)
     r.require_floor(6)
     return r
+
+
+# ---------------------------------------------------------------------------
+def _root_literal(repo):
+    """the literal full_name of the elaborated top (NamedObject._elaborate_construct) and a check that repr() is full_name"""
+    nm = repo.mod(NAMED)
+    fn = nm.get_func('NamedObject._elaborate_construct')
+    lit = None
+    for st in walk_no_nested(fn):
+        if isinstance(st, ast.Assign):
+            for t in st.targets:
+                da = _dsl_attr(t)
+                if da and da[1] == 'full_name' and isinstance(st.value, ast.Constant) and isinstance(st.value.value, str):
+                    lit = st.value.value
+    rp = nm.get_func('NamedObject.__repr__')
+    rets = [norm(n.value) for n in walk_no_nested(rp) if isinstance(n, ast.Return) and n.value is not None]
+    me = _params(rp)[0]
+    if lit is None or f"{me}._dsl.full_name" not in rets:
+        raise AnalysisError("cannot establish that repr(x) is the full name rooted at a literal")
+    return lit
+
+
+def _name_template(e, root):
+    """head identifier that eval() of the saved string needs:  repr(x) -> root ;  "lit" + repr(x)[n:] -> lit (n must be len(root))"""
+    if isinstance(e, ast.Call) and norm(e.func) == 'repr' and len(e.args) == 1:
+        return root, norm(e.args[0]), None
+    if isinstance(e, ast.BinOp) and isinstance(e.op, ast.Add) and isinstance(e.left, ast.Constant) and \
+            isinstance(e.left.value, str) and isinstance(e.right, ast.Subscript) and \
+            isinstance(e.right.value, ast.Call) and norm(e.right.value.func) == 'repr' and \
+            isinstance(e.right.slice, ast.Slice) and e.right.slice.upper is None and e.right.slice.step is None:
+        lo = e.right.slice.lower
+        n = lo.value if isinstance(lo, ast.Constant) else None
+        if n != len(root):
+            return e.left.value, norm(e.right.value.args[0]), f"slice [{norm(lo) if lo else ''}:] does not strip exactly the root name '{root}'"
+        return e.left.value, norm(e.right.value.args[0]), None
+    if isinstance(e, ast.JoinedStr):
+        return None, None, "f-string form not understood"
+    return None, None, "not repr(x) / 'lit'+repr(x)[n:]"
+
+
+def _saved_lists(fn):
+    return [st.targets[0].id for st in walk_no_nested(fn)
+            if isinstance(st, ast.Assign) and len(st.targets) == 1 and isinstance(st.targets[0], ast.Name)
+            and isinstance(st.value, ast.List) and not st.value.elts and st.targets[0].id.startswith('saved_')]
+
+
+def rule_saved(repo):
+    r = RuleResult('R-C15-saved', "each saved_* list is filtered from one map of the parent by membership in the removed "
+                   "connectables, the saved entries are purged from that map, returned, passed by both replace variants and "
+                   "re-inserted by _add_component into the map of the same name under an eval-able root name")
+    m = repo.mod(COMP)
+    delf, addf = m.get_func(DEL_QUAL), m.get_func(ADD_QUAL)
+    outer = m.get_func('Component._delete_component')
+    root = _root_literal(repo)
+    dom = SetDom(delf)
+    lists = _saved_lists(delf)
+    if len(lists) < 7:
+        raise AnalysisError(f"anchor vanished: expected the seven saved_* lists in {DEL_QUAL}, found {lists}")
+    foo = _params(delf)[1]
+    # ---- (a)+(b) producer side
+    source = {}        # list -> ('map', F) | ('graph', text)
+    heads = {}         # list -> head identifier needed at eval time
+    for L in lists:
+        apps = [n for n in walk_no_nested(delf) if isinstance(n, ast.Call) and isinstance(n.func, ast.Attribute)
+                and n.func.attr == 'append' and norm(n.func.value) == L]
+        if not apps:
+            r.bad(m, DEL_QUAL, f"{L}.append", f"{L} is returned but never filled: the parent's references to the removed "
+                  f"component's ports are lost after the replacement", delf.lineno)
+            continue
+        for ap in apps:
+            st = stmt_of(ap)
+            tup = ap.args[0] if len(ap.args) == 1 else None
+            if not (isinstance(tup, ast.Tuple) and len(tup.elts) == 2):
+                raise AnalysisError(f"R-C15-saved: {norm(st)} does not append a pair")
+            first, second = tup.elts
+            head, xvar, why = _name_template(second, root)
+            if head is None or why:
+                r.bad(m, DEL_QUAL, norm(st), f"saved object name is not re-evaluable: {why}", st.lineno)
+                continue
+            heads.setdefault(L, set()).add(head)
+            fors = [a for a in _ancestors(st, delf) if isinstance(a, ast.For)]
+            inner = [f for f in fors if isinstance(f.target, ast.Name) and f.target.id == xvar]
+            if not inner:
+                raise AnalysisError(f"R-C15-saved: cannot find the loop binding {xvar} for {norm(st)}")
+            xloop = inner[0]
+            mp = [f for f in fors if isinstance(f.target, ast.Tuple) and len(f.target.elts) == 2
+                  and isinstance(f.iter, ast.Call) and isinstance(f.iter.func, ast.Attribute) and f.iter.func.attr == 'items'
+                  and _dsl_attr(f.iter.func.value)]
+            if mp:
+                # filtered from a map of the parent
+                mloop = mp[0]
+                base, F = _dsl_attr(mloop.iter.func.value)
+                kvar, vvar = [norm(x) for x in mloop.target.elts]
+                pb = [norm(v) for k, s2, v, _ in _bindings(delf, base) if k == 'assign']
+                cons = f"{L} <- {base}._dsl.{F}"
+                if pb != [f"{foo}.get_parent_object()"]:
+                    r.bad(m, DEL_QUAL, cons, f"`{base}` is not the parent of the removed component", mloop.lineno)
+                    continue
+                if norm(xloop.iter) != vvar or norm(first) != kvar:
+                    r.bad(m, DEL_QUAL, cons, f"the saved pair ({norm(first)}, name of {xvar}) is not (key, member) of "
+                          f"{base}._dsl.{F}: the entry is restored under the wrong block / function", st.lineno)
+                    continue
+                ex, other = _excluded_sets(st, xloop, '')
+                memb = [g for g in guards_of(st, stop=xloop) if g.kind == 'if' and isinstance(g.test, ast.Compare)
+                        and len(g.test.ops) == 1 and norm(g.test.left) == xvar]
+                okm = False
+                for g in memb:
+                    pos = (isinstance(g.test.ops[0], ast.In) and g.polarity) or (isinstance(g.test.ops[0], ast.NotIn) and not g.polarity)
+                    sv = dom.of(g.test.comparators[0])
+                    if pos and sv is not None and {'Signal', 'MethodPort'} <= _classes(sv) and \
+                            all(a[0] == 'coll' and a[1] == foo for a in sv):
+                        okm = True
+                if not okm:
+                    r.bad(m, DEL_QUAL, cons, f"entries are not selected by `{xvar} in <signals and method ports collected "
+                          f"from {foo}>`: references to the removed ports are not saved (or foreign ones are)", st.lineno)
+                    continue
+                source[L] = ('map', F)
+                r.ok(m, DEL_QUAL, f"{cons} filtered by membership in the removed connectables")
+                # (b) purge from the same map
+                purged = False
+                for s2 in walk_no_nested(mloop):
+                    if isinstance(s2, ast.AugAssign) and isinstance(s2.op, ast.Sub) and isinstance(s2.target, ast.Subscript):
+                        da = _dsl_attr(s2.target.value)
+                        if da and da[0] == base and isinstance(s2.value, ast.Name):
+                            tsv = s2.value.id
+                            addx = [n for n in walk_no_nested(mloop) if isinstance(n, ast.Call) and isinstance(n.func, ast.Attribute)
+                                    and n.func.attr == 'add' and norm(n.func.value) == tsv and [norm(a) for a in n.args] == [xvar]
+                                    and any(g2.node is g.node for g in memb for g2 in guards_of(stmt_of(n), stop=xloop))]
+                            fresh = [b for b in _bindings(delf, tsv) if b[0] == 'assign' and norm(b[2]) == 'set()'
+                                     and any(a is mloop for a in _ancestors(b[1], delf))]
+                            if da[1] == F and norm(s2.target.slice) == kvar and addx and fresh:
+                                purged = True
+                            elif da[1] != F and addx:
+                                r.bad(m, DEL_QUAL, norm(s2), f"entries saved from {F} are purged from {da[1]}: {F} keeps the "
+                                      f"deleted objects and {da[1]} loses live ones", s2.lineno)
+                                purged = None
+                if purged is True:
+                    r.ok(m, DEL_QUAL, f"{base}._dsl.{F}[{kvar}] -= saved members")
+                elif purged is False:
+                    r.bad(m, DEL_QUAL, f"{base}._dsl.{F}[{kvar}] -= saved members", f"the saved members are not removed from "
+                          f"{base}._dsl.{F} (aliased by the top-level all_* map): the block keeps reading/writing a "
+                          f"<deleted> signal after the replacement", mloop.lineno)
+            else:
+                # saved_connections: neighbours of a removed key in the top-level graph
+                g = [a for a in fors if isinstance(a.target, ast.Name) and norm(a.target) == norm(first) or
+                     (isinstance(a.target, ast.Name) and any(isinstance(n, ast.Name) and n.id == a.target.id for n in ast.walk(first)))]
+                nb = [a for a in fors if isinstance(a.iter, ast.Subscript) and _dsl_attr(_expand(a.iter.value, a))
+                      and norm(a.iter.slice) == xvar]
+                cons = f"{L} <- neighbours in {norm(nb[0].iter.value) if nb else '?'}"
+                if not nb or _dsl_attr(_expand(nb[0].iter.value, nb[0]))[1] != 'all_adjacency':
+                    r.bad(m, DEL_QUAL, cons, "cross-boundary connections are not taken from the top-level adjacency of the "
+                          "removed object", st.lineno)
+                    continue
+                ovar = norm(nb[0].target)
+                rv = [n.id for n in ast.walk(first) if isinstance(n, ast.Name)]
+                if ovar not in rv:
+                    r.bad(m, DEL_QUAL, cons, f"the saved pair does not hold the surviving neighbour `{ovar}`", st.lineno)
+                    continue
+                ex, other = _excluded_sets(st, nb[0], ovar)
+                xs = dom.of(xloop.iter)
+                if not any(dom.of(S) == xs for S in ex):
+                    r.bad(m, DEL_QUAL, cons, "connections to neighbours that are themselves removed are saved too "
+                          "(no `other not in <removed>` guard): eval of a <deleted> name fails on re-add", st.lineno)
+                    continue
+                source[L] = ('graph', 'all_adjacency')
+                r.ok(m, DEL_QUAL, f"{cons} of every removed key, survivors only")
+    # ---- (c) return tuple
+    rets = [n for n in walk_no_nested(delf) if isinstance(n, ast.Return) and n.value is not None]
+    if len(rets) != 1 or not isinstance(rets[0].value, ast.Tuple):
+        raise AnalysisError(f"{DEL_QUAL}: expected a single `return <tuple>`")
+    ret_names = [norm(e) for e in rets[0].value.elts]
+    orets = [n for n in walk_no_nested(outer) if isinstance(n, ast.Return) and n.value is not None]
+    if not (len(orets) == 1 and isinstance(orets[0].value, ast.Call) and norm(orets[0].value.func) == '_delete_component_internal'):
+        raise AnalysisError("Component._delete_component no longer returns _delete_component_internal(...)")
+    for L in lists:
+        if L in ret_names:
+            r.ok(m, DEL_QUAL, f"return position {ret_names.index(L)}: {L}", nontrivial=False)
+        else:
+            r.bad(m, DEL_QUAL, f"return {L}", f"{L} is computed but not returned", rets[0].lineno)
+    # ---- consumer side: parameter -> map
+    aps = _params(addf)
+    consume = {}
+    for p in aps[5:]:
+        loops = [st for st in walk_no_nested(addf) if isinstance(st, ast.For) and norm(st.iter) == p]
+        if not loops:
+            r.bad(m, ADD_QUAL, f"for ... in {p}", f"parameter {p} is never consumed: the saved entries are dropped", addf.lineno)
+            continue
+        lp = loops[0]
+        tv = [norm(x) for x in lp.target.elts] if isinstance(lp.target, ast.Tuple) else []
+        evs = [n for n in walk_no_nested(lp) if isinstance(n, ast.Call) and norm(n.func) == 'eval' and len(n.args) == 1]
+        if len(tv) != 2 or not evs or any(norm(e.args[0]) != tv[1] for e in evs):
+            raise AnalysisError(f"{ADD_QUAL}: loop over {p} outside the domain")
+        adds = [n for n in walk_no_nested(lp) if isinstance(n, ast.Call) and isinstance(n.func, ast.Attribute)
+                and n.func.attr == 'add' and isinstance(n.func.value, ast.Subscript) and _dsl_attr(n.func.value.value)]
+        if adds:
+            a = adds[0]
+            base, F = _dsl_attr(a.func.value.value)
+            if norm(a.func.value.slice) != tv[0] or not (len(a.args) == 1 and norm(a.args[0]) == f"eval({tv[1]})") \
+                    or base != aps[1]:
+                r.bad(m, ADD_QUAL, norm(a), f"entries of {p} are not re-inserted as {aps[1]}._dsl.<map>[key].add(eval(name))", a.lineno)
+                continue
+            consume[p] = ('map', F)
+        else:
+            apps = sorted([n for n in walk_no_nested(lp) if isinstance(n, ast.Call) and isinstance(n.func, ast.Attribute)
+                           and n.func.attr == 'append' and len(n.args) == 1], key=lambda n: (n.lineno, n.col_offset))
+            tgt = {norm(n.func.value) for n in apps}
+            vals = [norm(n.args[0]) for n in apps]
+            used = [c for c in _call_sites(addf, 'add_connections')
+                    if any(isinstance(x, ast.Starred) and norm(x.value) in tgt for x in c.args)]
+            if len(tgt) == 1 and vals == [tv[0], f"eval({tv[1]})"] and used and norm(used[0].func.value) == aps[1]:
+                consume[p] = ('graph', 'all_adjacency')
+            else:
+                r.bad(m, ADD_QUAL, f"for {', '.join(tv)} in {p}", f"saved connections are not replayed pairwise "
+                      f"(neighbour, eval(name)) through {aps[1]}.add_connections", lp.lineno)
+    # eval-able heads
+    locals_add = set(aps) | {t.id for st in walk_no_nested(addf) if isinstance(st, ast.Assign) for t in st.targets
+                             if isinstance(t, ast.Name)}
+    for L, hs in sorted(heads.items()):
+        for h in sorted(hs):
+            cons = f"{L}: names start with `{h}`"
+            if h == root:
+                ok = aps[0] == root
+                why = f"eval needs a local `{root}` bound to the top: it is the receiver parameter of _add_component only if that parameter is named `{root}` (it is `{aps[0]}`)"
+            else:
+                bs = [norm(v) for k, st, v, _ in _bindings(addf, h) if k == 'assign']
+                ok = bool(bs) and all(b == f"{aps[0]}._dsl.elaborate_top" for b in bs)
+                why = f"eval needs a local `{h}` bound to the elaborated top in _add_component (bindings: {bs})"
+            if ok:
+                r.ok(m, ADD_QUAL, cons + " which is bound to the top in _add_component")
+            else:
+                r.bad(m, ADD_QUAL, cons, why + ": NameError / wrong object when the saved entries are re-evaluated", addf.lineno)
+    # ---- (d) both callers
+    for qual in ('Component.replace_component', 'Component.replace_component_with_obj'):
+        fn = m.get_func(qual)
+        dc = _call_sites(fn, '_delete_component')
+        ac = _call_sites(fn, '_add_component')
+        if len(dc) != 1 or len(ac) != 1:
+            raise AnalysisError(f"{qual}: expected one _delete_component and one _add_component call")
+        st = stmt_of(dc[0])
+        if not (isinstance(st, ast.Assign) and isinstance(st.targets[0], ast.Tuple) and len(st.targets[0].elts) == len(ret_names)
+                and all(isinstance(x, ast.Name) for x in st.targets[0].elts)):
+            raise AnalysisError(f"{qual}: result of _delete_component is not unpacked into {len(ret_names)} names")
+        local_of = {ret_names[i]: st.targets[0].elts[i].id for i in range(len(ret_names))}
+        if ac[0].keywords or any(isinstance(a, ast.Starred) for a in ac[0].args) or len(ac[0].args) != len(aps) - 1:
+            raise AnalysisError(f"{qual}: _add_component call outside the domain")
+        param_of = {norm(a): aps[i + 1] for i, a in enumerate(ac[0].args)}
+        for L in lists:
+            if L not in local_of or L not in source:
+                continue
+            p = param_of.get(local_of[L])
+            cons = f"{L} ({source[L][1]}) -> {p}"
+            if p is None:
+                r.bad(m, qual, cons, f"{L} is not passed to _add_component", ac[0].lineno)
+            elif p not in consume:
+                r.bad(m, qual, cons, f"{L} is passed as {p}, which _add_component does not consume", ac[0].lineno)
+            elif consume[p] != source[L]:
+                r.bad(m, qual, cons + f" -> {consume[p][1]}", f"entries saved from {source[L][1]} are restored into "
+                      f"{consume[p][1]}: after the replacement the parent's blocks have the wrong read/write/call sets "
+                      f"(scheduling constraints differ from a fresh build)", ac[0].lineno)
+            else:
+                r.ok(m, qual, cons + f" -> {consume[p][1]}")
+    r.require_floor(34)
+    return r
+
+
+# ---------------------------------------------------------------------------
+# R-C15-names: the naming code duplicated in _add_component's list branch
+def _str_parts(e):
+    """flatten string building (f-string / + of strings) into a list of ('lit', s) / ('expr', text); None if e is not string building"""
+    if isinstance(e, ast.Constant) and isinstance(e.value, str):
+        return [('lit', e.value)]
+    if isinstance(e, ast.JoinedStr):
+        out = []
+        for v in e.values:
+            if isinstance(v, ast.Constant):
+                out.append(('lit', v.value))
+            elif isinstance(v, ast.FormattedValue) and v.conversion == -1 and v.format_spec is None:
+                out.append(('expr', _canon(v.value)))
+            else:
+                return None
+        return out
+    if isinstance(e, ast.BinOp) and isinstance(e.op, ast.Add):
+        a, b = _str_parts(e.left), _str_parts(e.right)
+        if a is None and b is None:
+            return None
+        a = a if a is not None else [('expr', _canon(e.left))]
+        b = b if b is not None else [('expr', _canon(e.right))]
+        return a + b
+    return None
+
+
+def _canon(e):
+    parts = _str_parts(e)
+    if parts is not None and not (isinstance(e, ast.Constant)):
+        merged = []
+        for k, v in parts:
+            if merged and k == 'lit' and merged[-1][0] == 'lit':
+                merged[-1] = ('lit', merged[-1][1] + v)
+            elif not (k == 'lit' and v == ''):
+                merged.append((k, v))
+        return 'STR[' + ' + '.join(repr(v) if k == 'lit' else v for k, v in merged) + ']'
+    if isinstance(e, ast.Attribute) and e.attr == 'elaborate_top' and isinstance(e.value, ast.Attribute) and e.value.attr == '_dsl':
+        return 'ELABTOP'
+    return norm(e)
+
+
+class _Region:
+    """one of the two sibling naming regions, with the renaming to canonical role names"""
+    def __init__(self, mod, qual, fn, stmts, roles):
+        self.mod, self.qual, self.fn, self.stmts, self.roles = mod, qual, fn, stmts, roles
+
+    def rewrite(self, e, at):
+        e = _expand(e, at)
+        roles, fn = self.roles, self.fn
+
+        class T(ast.NodeTransformer):
+            def visit_Name(self, n):
+                if n.id in roles:
+                    return ast.copy_location(ast.Name(id=roles[n.id], ctx=n.ctx), n)
+                if isinstance(n.ctx, ast.Load):
+                    bs = [b for b in _bindings(fn, n.id) if b[0] == 'assign']
+                    if bs and all(isinstance(b[2], ast.Attribute) and b[2].attr == 'elaborate_top' for b in bs):
+                        return ast.copy_location(ast.Name(id='ELABTOP', ctx=n.ctx), n)
+                    rv = reaching_value(n.id, at)
+                    if rv is not None and not isinstance(rv, (ast.Call,)) or \
+                            (rv is not None and _str_parts(rv) is not None):
+                        return self.visit(_expand(rv, at))
+                return n
+        return T().visit(copy.deepcopy(e))
+
+    def canon(self, e, at):
+        return _canon(self.rewrite(e, at)).replace('ELABTOP._dsl.elaborate_top', 'ELABTOP')
+
+    def top_index(self, node):
+        cur = node
+        while cur is not None:
+            for i, s in enumerate(self.stmts):
+                if s is cur:
+                    return i
+            cur = parent(cur)
+        return None
+
+    def guard_atoms(self, st):
+        out = []
+        for g in guards_of(st):
+            if self.top_index(g.node) is None or g.kind not in ('if', 'loop'):
+                continue        # guard outside the region (the branch test itself and above) / sanity asserts
+            if g.kind == 'loop':
+                out.append(('loop', self.canon(g.test, st)))
+                continue
+            todo = [(g.test, g.polarity)]
+            while todo:
+                t, pol = todo.pop()
+                if isinstance(t, ast.BoolOp) and isinstance(t.op, ast.And) and pol:
+                    todo += [(v, pol) for v in t.values]
+                elif isinstance(t, ast.UnaryOp) and isinstance(t.op, ast.Not):
+                    todo.append((t.operand, not pol))
+                else:
+                    out.append((pol, self.canon(t, st)))
+        return frozenset(out)
+
+    def facts(self):
+        """{(field, guards, value)} for assignments to CHILD._dsl.<field> and param_tree.merge calls"""
+        out = {}
+        for top in self.stmts:
+            for st in walk_no_nested(top):
+                if isinstance(st, ast.Assign):
+                    for t in st.targets:
+                        da = _dsl_attr(self.rewrite(t, st)) if isinstance(t, ast.Attribute) else None
+                        if da and da[0] == 'CHILD':
+                            out.setdefault(da[1], set()).add((self.guard_atoms(st), self.canon(st.value, st)))
+                elif isinstance(st, ast.Expr) and isinstance(st.value, ast.Call) and isinstance(st.value.func, ast.Attribute):
+                    c = st.value
+                    recv = self.rewrite(c.func.value, st)
+                    if norm(recv).startswith('CHILD._dsl.'):
+                        out.setdefault(norm(recv)[len('CHILD._dsl.'):] + '.' + c.func.attr, set()).add(
+                            (self.guard_atoms(st), ', '.join(self.canon(a, st) for a in c.args)))
+        return out
+
+    def find_call(self, pred):
+        hits = []
+        for i, top in enumerate(self.stmts):
+            for n in walk_no_nested(top):
+                if isinstance(n, ast.Call) and pred(n):
+                    hits.append((i, n))
+        return sorted(hits, key=lambda x: (x[1].lineno, x[1].col_offset))
+
+
+def _regions(repo):
+    nm = repo.mod(NAMED)
+    sf = nm.get_func('NamedObject.__setattr_for_elaborate__')
+    sp = _params(sf)
+    if len(sp) != 3:
+        raise AnalysisError("signature of __setattr_for_elaborate__ changed")
+    regA = None
+    for w in [n for n in walk_no_nested(sf) if isinstance(n, ast.While)]:
+        for st in walk_no_nested(w):
+            if isinstance(st, ast.If):
+                it = _isinstance_test(st.test)
+                if it and it[1] == ['NamedObject']:
+                    child = it[0]
+                    # the index tuple unpacked together with the child
+                    idx = None
+                    for k, s2, v, i in _bindings(sf, child):
+                        if k == 'unpack' and isinstance(s2.targets[0], ast.Tuple) and len(s2.targets[0].elts) == 2:
+                            idx = s2.targets[0].elts[1 - i].id
+                    if idx is None:
+                        raise AnalysisError("list branch of __setattr_for_elaborate__: cannot find the index tuple")
+                    regA = _Region(nm, 'NamedObject.__setattr_for_elaborate__', sf, st.body,
+                                   {sp[0]: 'PARENT', child: 'CHILD', sp[1]: 'NAME', idx: 'INDICES'})
+    if regA is None:
+        raise AnalysisError("anchor vanished: list branch of NamedObject.__setattr_for_elaborate__")
+    m = repo.mod(COMP)
+    af = m.get_func(ADD_QUAL)
+    ap = _params(af)
+    regB = None
+    for st in af.body:
+        if isinstance(st, ast.If):
+            t, pol = st.test, True
+            if isinstance(t, ast.UnaryOp) and isinstance(t.op, ast.Not):
+                t, pol = t.operand, False
+            if isinstance(t, ast.Name) and t.id == ap[3]:
+                body = st.body if pol else st.orelse
+                other = st.orelse if pol else st.body
+                regB = _Region(m, ADD_QUAL, af, body, {ap[1]: 'PARENT', ap[4]: 'CHILD', ap[2]: 'NAME', ap[3]: 'INDICES'})
+                regB.other = other
+                regB.branch = st
+    if regB is None or not regB.stmts:
+        raise AnalysisError("anchor vanished: list branch of Component._add_component")
+    return regA, regB
+
+
+# ---- name resolution ------------------------------------------------------
+_BUILTINS = set(dir(builtins))
+
+
+def _local_names(fn):
+    """names bound in the scope of fn (not in nested function scopes)"""
+    out = set()
+    a = fn.args
+    for x in a.posonlyargs + a.args + a.kwonlyargs + ([a.vararg] if a.vararg else []) + ([a.kwarg] if a.kwarg else []):
+        out.add(x.arg)
+    body = fn.body if isinstance(fn.body, list) else [fn.body]
+    for st in body:
+        for n in walk_no_nested(st):
+            if isinstance(n, ast.Name) and isinstance(n.ctx, (ast.Store, ast.Del)):
+                out.add(n.id)
+            elif isinstance(n, ast.ExceptHandler) and n.name:
+                out.add(n.name)
+            elif isinstance(n, (ast.Import, ast.ImportFrom)):
+                for al in n.names:
+                    out.add((al.asname or al.name).split('.')[0])
+        for n in ast.iter_child_nodes(st) if False else ():
+            pass
+    # nested defs / classes bind their own name in this scope
+    todo = list(body)
+    while todo:
+        n = todo.pop()
+        for ch in ast.iter_child_nodes(n):
+            if isinstance(ch, (ast.FunctionDef, ast.AsyncFunctionDef, ast.ClassDef)):
+                out.add(ch.name)
+            elif not isinstance(ch, ast.Lambda):
+                todo.append(ch)
+    for st in body:
+        if isinstance(st, (ast.FunctionDef, ast.AsyncFunctionDef, ast.ClassDef)):
+            out.add(st.name)
+    return out
+
+
+def _module_names(mod):
+    out = set(mod.classes) | set(mod.functions) | set(mod.assigns) | set(mod.imports)
+    for st in mod.tree.body:
+        for n in walk_no_nested(st):
+            if isinstance(n, ast.Name) and isinstance(n.ctx, ast.Store):
+                out.add(n.id)
+    return out
+
+
+def _unresolved(repo, mod, fn, outer=frozenset()):
+    """[(name, node)] loaded in fn (and its nested scopes) that resolve neither locally, nor in an enclosing
+    function, nor at module level (star imports followed through the loader), nor as a builtin"""
+    scope = _local_names(fn) | outer
+    modnames = _module_names(mod)
+    bad = []
+    body = fn.body if isinstance(fn.body, list) else [fn.body]
+    nested = []
+    for st in body:
+        if isinstance(st, (ast.FunctionDef, ast.AsyncFunctionDef, ast.Lambda)):
+            nested.append(st)
+            continue
+        for n in walk_no_nested(st):
+            if isinstance(n, ast.Name) and isinstance(n.ctx, ast.Load):
+                if n.id in scope or n.id in modnames or n.id in _BUILTINS:
+                    continue
+                if mod.star_imports:
+                    if repo.resolve(mod, n.id) is not None:
+                        continue
+                    if any(repo.dotted_to_rel(d) is None for d in mod.star_imports):
+                        raise AnalysisError(f"{mod.rel}: name {n.id} may come from a star import that leaves the repository")
+                bad.append((n.id, n))
+            for ch in ast.iter_child_nodes(n):
+                if isinstance(ch, (ast.FunctionDef, ast.AsyncFunctionDef, ast.Lambda)):
+                    nested.append(ch)
+                    # default values / decorators are evaluated in this scope
+                    for d in ch.args.defaults + [k for k in ch.args.kw_defaults if k is not None]:
+                        for x in ast.walk(d):
+                            if isinstance(x, ast.Name) and isinstance(x.ctx, ast.Load) and x.id not in scope \
+                                    and x.id not in modnames and x.id not in _BUILTINS:
+                                bad.append((x.id, x))
+    for nf in nested:
+        bad += _unresolved(repo, mod, nf, scope)
+    return bad
+
+
+def rule_names(repo):
+    r = RuleResult('R-C15-names', "_add_component's list branch names the new child exactly as __setattr_for_elaborate__ "
+                   "does (same _dsl fields, same values, same param-tree push-down conditions, constructed inside the "
+                   "elaboration stack with the setattr hook installed) and every name used on the replace path resolves")
+    A, B = _regions(repo)
+    fa, fb = A.facts(), B.facts()
+    for fld in sorted(set(fa) | set(fb)):
+        cons = f"_dsl.{fld}"
+        if fld not in fb:
+            r.bad(B.mod, B.qual, cons, f"__setattr_for_elaborate__ sets {cons} of a list element but _add_component's list "
+                  f"branch does not: a replaced list element lacks it (e.g. a second replace_component of the same "
+                  f"element or get_field_name fails)", B.branch.lineno)
+        elif fld not in fa:
+            r.bad(B.mod, B.qual, cons, f"_add_component's list branch sets {cons} which elaboration never sets for a list element",
+                  B.branch.lineno)
+        elif fa[fld] != fb[fld]:
+            da = sorted(f"{v} when {sorted(map(str, g))}" if g else v for g, v in fa[fld] - fb[fld])
+            db = sorted(f"{v} when {sorted(map(str, g))}" if g else v for g, v in fb[fld] - fa[fld])
+            r.bad(B.mod, B.qual, cons, f"{cons} differs between the siblings: elaboration gives {da}, _add_component gives "
+                  f"{db}; a replaced list element is named / parameterised differently from a freshly built one",
+                  B.branch.lineno)
+        else:
+            r.ok(B.mod, B.qual, f"{cons} = {sorted(v for g, v in fb[fld])[0][:80]}")
+    # construction bracket
+    for R in (A, B):
+        cons = f"{R.qual}: construct inside the elaboration stack"
+        stack = R.find_call(lambda n: isinstance(n.func, ast.Attribute) and n.func.attr in ('append', 'pop')
+                            and norm(n.func.value).endswith('._elaborate_stack'))
+        ctor = R.find_call(lambda n: isinstance(n.func, ast.Attribute) and n.func.attr == '_construct'
+                           and R.roles.get(norm(n.func.value)) == 'CHILD')
+        app = [i for i, n in stack if n.func.attr == 'append' and len(n.args) == 1 and R.roles.get(norm(n.args[0])) == 'CHILD']
+        pop = [i for i, n in stack if n.func.attr == 'pop']
+        fields = [R.top_index(st) for top in R.stmts for st in walk_no_nested(top)
+                  if isinstance(st, ast.Assign) and any(isinstance(t, ast.Attribute) and
+                                                        (_dsl_attr(R.rewrite(t, st)) or ('', ''))[0] == 'CHILD' for t in st.targets)]
+        if len(ctor) != 1 or not app or not pop:
+            r.bad(R.mod, R.qual, cons, "the child is not constructed between _elaborate_stack.append(child) and .pop(): "
+                  "@update / connect inside its construct() attach to the wrong component", R.stmts[0].lineno)
+            continue
+        ci = ctor[0][0]
+        if not (max(app) < ci < min(pop)) or not all(i < ci for i in fields):
+            r.bad(R.mod, R.qual, cons, "order broken: all _dsl naming fields and the stack push must precede _construct(), "
+                  "the pop must follow it", ctor[0][1].lineno)
+        else:
+            r.ok(R.mod, R.qual, cons)
+    # setattr hook around the construction (list branch) and around setattr (plain branch); stack set up and torn down
+    def hook_events(stmts):
+        ev = []
+        for i, top in enumerate(stmts):
+            for st in walk_no_nested(top):
+                if isinstance(st, ast.Assign) and norm(st.targets[0]) == 'NamedObject.__setattr__' and \
+                        norm(st.value) == 'NamedObject.__setattr_for_elaborate__':
+                    ev.append((st.lineno, 'install'))
+                elif isinstance(st, ast.Delete) and [norm(t) for t in st.targets] == ['NamedObject.__setattr__']:
+                    ev.append((st.lineno, 'remove'))
+                elif isinstance(st, ast.Call) and isinstance(st.func, ast.Attribute) and st.func.attr == '_construct':
+                    ev.append((st.lineno, 'work'))
+                elif isinstance(st, ast.Call) and norm(st.func) == 'setattr':
+                    ev.append((st.lineno, 'work'))
+        return [k for _, k in sorted(ev)]
+    for label, stmts in (('list branch', B.stmts), ('plain-field branch', B.other)):
+        ev = hook_events(stmts)
+        cons = f"{ADD_QUAL} {label}: setattr hook {ev}"
+        if ev == ['install', 'work', 'remove']:
+            r.ok(B.mod, ADD_QUAL, cons)
+        else:
+            r.bad(B.mod, ADD_QUAL, f"{ADD_QUAL} {label}: setattr hook bracket", f"expected install -> construct/setattr -> remove "
+                  f"of NamedObject.__setattr__, found {ev}: children created by the new component's construct() are not "
+                  f"named (or every later attribute assignment in the process is hooked)", B.branch.lineno)
+    af = B.fn
+    pre = [st for st in af.body if isinstance(st, ast.Assign) and norm(st.targets[0]) == 'NamedObject._elaborate_stack']
+    post = [st for st in af.body if isinstance(st, ast.Delete) and [norm(t) for t in st.targets] == ['NamedObject._elaborate_stack']]
+    parent_name = _params(af)[1]
+    if len(pre) == 1 and len(post) == 1 and norm(pre[0].value) == f"[{parent_name}]" and \
+            af.body.index(pre[0]) < af.body.index(B.branch) < af.body.index(post[0]):
+        r.ok(B.mod, ADD_QUAL, f"NamedObject._elaborate_stack = [{parent_name}] ... del")
+    else:
+        r.bad(B.mod, ADD_QUAL, "NamedObject._elaborate_stack set up / torn down", "the elaboration stack must be [parent] "
+              "while the new component is built and be deleted afterwards", af.lineno)
+    # index walk siblings (delete side vs add side)
+    m = repo.mod(COMP)
+    delf = m.get_func(DEL_QUAL)
+    def walk_loops(fn, stmts_iter):
+        out = []
+        for st in stmts_iter:
+            if isinstance(st, ast.While):
+                idx = [n for n in ast.walk(st.test) if isinstance(n, ast.Call) and norm(n.func) == 'len']
+                if idx and isinstance(idx[0].args[0], ast.Name):
+                    v = idx[0].args[0].id
+                    txt = norm(st).replace(v, 'INDICES')
+                    out.append((txt, st))
+        return out
+    wa = walk_loops(af, [s for top in B.stmts for s in walk_no_nested(top)])
+    wd = walk_loops(delf, list(walk_no_nested(delf)))
+    if len(wa) == 1 and len(wd) == 1:
+        if wa[0][0] == wd[0][0]:
+            r.ok(m, DEL_QUAL, "index walk to the innermost list agrees with _add_component")
+        else:
+            r.bad(m, DEL_QUAL, "index walk to the innermost list", f"_delete_component walks `{wd[0][0]}` but _add_component "
+                  f"`{wa[0][0]}`: the slot cleared and the slot refilled differ for nested lists", wd[0][1].lineno)
+    else:
+        raise AnalysisError("index-walk loops of _add_component / _delete_component not found")
+    # every name resolves
+    scanned = 0
+    targets = [(m, f"Component.{f.name}", f) for f in m.methods('Component').values()]
+    for name in ('_collect_vars', '_uncollect_vars'):
+        targets += [(fm, f"{fc.name}.{name}", f) for fm, fc, f in _defs(repo, name)]
+    nm = repo.mod(NAMED)
+    for q in ('NamedObject.__setattr_for_elaborate__', 'NamedObject._collect_all', 'NamedObject._collect_all_single'):
+        targets.append((nm, q, nm.get_func(q)))
+    for fm, q, f in targets:
+        bad = _unresolved(repo, fm, f)
+        scanned += 1
+        if bad:
+            for name, node in sorted({(n, x.lineno): (n, x) for n, x in bad}.values(), key=lambda t: t[1].lineno):
+                r.bad(fm, q, f"name {name}", f"`{name}` is used in {q} but is neither a local, a module-level name / import of "
+                      f"{fm.rel} nor a builtin: NameError when this path runs (e.g. a replaced list element with set_param "
+                      f"overrides)", node.lineno)
+        else:
+            r.ok(fm, q, "all names resolve", nontrivial=False)
+    # embedded positive example for the resolver
+    probe = ast.parse("def f(a):\n  b = a\n  return [Zzz(x) for x in b] + [len(b)]\n")
+    from sa.loader import _set_parents
+    _set_parents(probe)
+    if [n for n, _ in _unresolved(repo, m, probe.body[0])] != ['Zzz']:
+        raise AnalysisError("name-resolution probe failed")
+    r.require_floor(55)
+    return r
+
+
+# ---------------------------------------------------------------------------
+def rule_flush(repo):
+    r = RuleResult('R-C15-flush', "both replace variants capture parent/name/indices before deleting, delete before adding, "
+                   "flush value and method nets and re-run check() by default; pending flags and flush helpers are not crossed")
+    m = repo.mod(COMP)
+    addf = m.get_func(ADD_QUAL)
+    aps = _params(addf)
+    seqs = {}
+    for qual in ('Component.replace_component', 'Component.replace_component_with_obj'):
+        fn = m.get_func(qual)
+        ps = _params(fn)
+        top, foo = ps[0], ps[1]
+        body = fn.body
+
+        def idx_of(node):
+            st = stmt_of(node)
+            while st is not None and not any(st is s for s in body):
+                st = parent(st)
+            return None if st is None else [i for i, s in enumerate(body) if s is st][0]
+        calls = {}
+        for n in walk_no_nested(fn):
+            if isinstance(n, ast.Call) and isinstance(n.func, ast.Attribute) and norm(n.func.value) == top:
+                calls.setdefault(n.func.attr, []).append(n)
+        need = ['_check_called_at_elaborate_top', '_delete_component', '_add_component',
+                '_flush_pending_value_connections', '_flush_pending_method_connections', 'check']
+        missing = [c for c in need if len(calls.get(c, [])) != 1]
+        if missing:
+            for c in missing:
+                r.bad(m, qual, f"{top}.{c}()", f"{qual} does not call {top}.{c}() exactly once: "
+                      + ("nets returned by get_all_*_nets / used by check() are stale after the replacement"
+                         if 'flush' in c else "the replacement protocol is incomplete"), fn.lineno)
+            continue
+        pos = {c: idx_of(calls[c][0]) for c in need}
+        cons = ' -> '.join(sorted(need, key=lambda c: pos[c]))
+        order_ok = pos['_check_called_at_elaborate_top'] < pos['_delete_component'] < pos['_add_component'] and \
+            pos['_add_component'] < pos['_flush_pending_value_connections'] < pos['check'] and \
+            pos['_add_component'] < pos['_flush_pending_method_connections'] < pos['check']
+        if order_ok:
+            r.ok(m, qual, cons)
+        else:
+            r.bad(m, qual, 'call order', f"order is {cons}; required: top check, delete, add, both flushes, then check()", fn.lineno)
+        # flushes unconditional, check() guarded exactly by the `check` parameter defaulting to True
+        for c in ('_flush_pending_value_connections', '_flush_pending_method_connections', '_delete_component', '_add_component'):
+            gs = [g for g in guards_of(stmt_of(calls[c][0])) if g.kind in ('if', 'exit')]
+            if gs:
+                r.bad(m, qual, f"{top}.{c}() conditional", f"{c} runs only when {gs}", calls[c][0].lineno)
+            else:
+                r.ok(m, qual, f"{top}.{c}() unconditional", nontrivial=False)
+        gs = [g for g in guards_of(stmt_of(calls['check'][0])) if g.kind in ('if', 'exit')]
+        flag = ps[-1]
+        dflt = fn.args.defaults[-1] if fn.args.defaults else None
+        if len(gs) == 1 and norm(gs[0].test) == flag and gs[0].polarity and isinstance(dflt, ast.Constant) and dflt.value is True:
+            r.ok(m, qual, f"if {flag}: {top}.check()  ({flag}=True by default)")
+        else:
+            r.bad(m, qual, f"{top}.check() by default", f"the structural checks must re-run after a replacement unless the caller "
+                  f"opts out (guards {gs}, default {norm(dflt) if dflt else None})", calls['check'][0].lineno)
+        # arguments of _add_component
+        ac = calls['_add_component'][0]
+        dc = calls['_delete_component'][0]
+        if [norm(a) for a in dc.args] != [foo]:
+            r.bad(m, qual, norm(dc), f"_delete_component must receive the replaced component `{foo}`", dc.lineno)
+        want = {aps[1]: f"{foo}.get_parent_object()", aps[2]: f"{foo}._dsl._my_name", aps[3]: f"{foo}._dsl._my_indices"}
+        for i, pname in enumerate(aps[1:4]):
+            a = ac.args[i] if i < len(ac.args) else None
+            rv = reaching_value(a.id, ac) if isinstance(a, ast.Name) else a
+            cons = f"_add_component({pname}=...)"
+            if rv is None or norm(rv) != want[pname]:
+                r.bad(m, qual, cons, f"{pname} is `{norm(rv) if rv is not None else norm(a)}`, must be {want[pname]} "
+                      f"(for list elements my_name carries the indices; the new object would be stored under the wrong field)",
+                      ac.lineno)
+                continue
+            if isinstance(a, ast.Name):
+                b = [st for k, st, v, _ in _bindings(fn, a.id) if k == 'assign']
+                if len(b) != 1 or idx_of(b[0]) >= pos['_delete_component']:
+                    r.bad(m, qual, cons, f"`{a.id}` must be read before _delete_component (which deletes parent_obj of the "
+                          f"removed component): NotElaboratedError otherwise", ac.lineno)
+                    continue
+            elif pname == aps[1]:
+                r.bad(m, qual, cons, "parent is read after _delete_component removed parent_obj", ac.lineno)
+                continue
+            r.ok(m, qual, f"{cons} = {want[pname]} captured before the deletion")
+        # the object handed over
+        a = ac.args[3] if len(ac.args) > 3 else None
+        if qual.endswith('with_obj'):
+            if isinstance(a, ast.Name) and a.id == ps[2]:
+                r.ok(m, qual, f"_add_component({aps[4]}={ps[2]})", nontrivial=False)
+            else:
+                r.bad(m, qual, f"_add_component({aps[4]}=...)", "the caller's object is not the one added", ac.lineno)
+        else:
+            rv = reaching_value(a.id, ac) if isinstance(a, ast.Name) else a
+            okc = isinstance(rv, ast.Call) and norm(rv.func) == ps[2] and \
+                [norm(x) for x in rv.args] == [f"*{foo}._dsl.args"] and \
+                [(k.arg, norm(k.value)) for k in rv.keywords] == [(None, f"{foo}._dsl.kwargs")]
+            if okc:
+                r.ok(m, qual, f"new object = {norm(rv)}")
+            else:
+                r.bad(m, qual, "new object construction", f"the replacement must be built as {ps[2]}(*{foo}._dsl.args, "
+                      f"**{foo}._dsl.kwargs) so that it gets the replaced component's parameters; found "
+                      f"{norm(rv) if rv is not None else None}", ac.lineno)
+    # flush helpers and getters: value<->value, method<->method
+    for kind in ('value', 'method'):
+        q = f"Component._flush_pending_{kind}_connections"
+        fn = m.get_func(q)
+        me = _params(fn)[0]
+        flag = f"{me}._dsl._has_pending_{kind}_connections"
+        ifs = [s for s in fn.body if isinstance(s, ast.If)]
+        ok = len(ifs) == 1 and norm(ifs[0].test) == flag and not ifs[0].orelse
+        if ok:
+            b = [norm(s) for s in ifs[0].body]
+            ok = f"{me}._dsl.all_{kind}_nets = {me}._resolve_{kind}_connections()" in b and f"{flag} = False" in b \
+                and b.index(f"{flag} = False") > b.index(f"{me}._dsl.all_{kind}_nets = {me}._resolve_{kind}_connections()")
+        if ok:
+            r.ok(m, q, f"if pending_{kind}: all_{kind}_nets = _resolve_{kind}_connections(); pending_{kind} = False")
+        else:
+            r.bad(m, q, f"flush of {kind} nets", f"the helper must recompute all_{kind}_nets with _resolve_{kind}_connections "
+                  f"when (and only clear) _has_pending_{kind}_connections: otherwise the nets after a replacement are stale "
+                  f"or of the wrong kind", fn.lineno)
+        q = f"Component.get_all_{kind}_nets"
+        fn = m.get_func(q)
+        me = _params(fn)[0]
+        rets = [n for n in walk_no_nested(fn) if isinstance(n, ast.Return)]
+        fl = [n for n in walk_no_nested(fn) if isinstance(n, ast.Call) and norm(n.func) == f"{me}._flush_pending_{kind}_connections"]
+        if len(rets) == 1 and norm(rets[0].value) == f"{me}._dsl.all_{kind}_nets" and fl and \
+                any(stmt_of(fl[0]) is s for s in preceding_stmts(rets[0])):
+            r.ok(m, q, f"flushes pending {kind} connections before returning all_{kind}_nets")
+        else:
+            r.bad(m, q, f"get_all_{kind}_nets flush", f"the getter must flush pending {kind} connections before returning "
+                  f"all_{kind}_nets", fn.lineno)
+    # the deletion marks both kinds of nets dirty
+    delf = m.get_func(DEL_QUAL)
+    top = _params(delf)[0]
+    for kind in ('value', 'method'):
+        sets = [st for st in delf.body if isinstance(st, ast.Assign) and norm(st.targets[0]) == f"{top}._dsl._has_pending_{kind}_connections"
+                and isinstance(st.value, ast.Constant) and st.value.value is True]
+        if sets:
+            r.ok(m, DEL_QUAL, f"{top}._dsl._has_pending_{kind}_connections = True")
+        else:
+            r.bad(m, DEL_QUAL, f"_has_pending_{kind}_connections = True", f"after removing signals / method ports the cached "
+                  f"all_{kind}_nets still contain them; the flag must be raised unconditionally so that the flush recomputes "
+                  f"the nets", delf.lineno)
+    cf = m.get_func('Component.check')
+    if any(isinstance(n, ast.Call) and norm(n.func) == f"{_params(cf)[0]}._check_valid_dsl_code" for n in walk_no_nested(cf)):
+        r.ok(m, 'Component.check', '_check_valid_dsl_code()', nontrivial=False)
+    else:
+        r.bad(m, 'Component.check', '_check_valid_dsl_code()', "check() no longer runs the structural checks", cf.lineno)
+    r.require_floor(22)
+    return r
+
+
+RULES = [rule_inverse, rule_sites, rule_keys, rule_saved, rule_names, rule_flush]
